@@ -185,6 +185,18 @@ def main():
         die("default grouping separator not terminated")
     gsep = gsep[:-1]
 
+    # formatNumberList: is a format string that is one non-alphanumeric token also appended as the suffix?
+    mf = re.search(r"ElemNumber::formatNumberList\s*\((.*?)\n\}", txt, flags=re.S)
+    if not mf:
+        die("ElemNumber::formatNumberList not found")
+    fl = re.sub(r"\s+", " ", mf.group(1))
+    if not re.search(r"if \(trailerStrIt != endIt\) \{ theResult \+= \*trailerStrIt; \}", fl):
+        die("formatNumberList: the trailer append `if (trailerStrIt != endIt) theResult += *trailerStrIt` was not found")
+    single_both = bool(re.search(r"if \(trailerStrIt != endIt\) \{ theResult \+= \*trailerStrIt; \} else if \(theVectorSize == 1 && "
+                                 r"leaderStrIt != endIt\) \{ theResult \+= \*leaderStrIt; \}", fl))
+    if not single_both and re.search(r"theResult \+= \*trailerStrIt; \} else", fl):
+        die("formatNumberList: unrecognised else-branch after the trailer append")
+
     def nats(l):
         return "[" + ", ".join(str(x) for x in l) + "]"
 
@@ -204,6 +216,8 @@ def main():
     out.append("def alphaBufLen : Nat := %d\n" % buflen)
     out.append("def defaultGroupingSeparator : List Nat := %s\n" % nats(gsep))
     out.append("def defaultGroupingSize : Nat := %d\n" % int(mz.group(1)))
+    out.append("/-- `formatNumberList`: a format string consisting of one non-alphanumeric token is appended as suffix too -/")
+    out.append("def singlePunctuationTokenIsAlsoSuffix : Bool := %s\n" % ("true" if single_both else "false"))
     out.append("end XalanModel.Generated.C17")
     new = "\n".join(out) + "\n"
     os.makedirs(os.path.dirname(OUT), exist_ok=True)
